@@ -60,6 +60,7 @@ RUN_TIMEOUT = 40
 KEY_CD = "cd_music-species-without-charge-distribution"
 KEY_NEG = "negative-total-recovery-with-kinetics"
 KEY_RK2 = "rk2-restores-solid-solution"
+KEY_ABS = "absent-phase-element-drift"
 
 
 def hx(s):
@@ -387,6 +388,20 @@ def judge_history(ctx, h, res, pm):
             out.setdefault("findings", []).append((KEY_RK2, "simulation %d: KINETICS -runge_kutta 2 with SOLID_SOLUTIONS; %s"
                                                    % (s, json.dumps(bad[:3])), s))
             bad = []
+        if bad and "equilibrium_phases" in plan["use"]:
+            # small drift (< 1e-8 mol) of an element that belongs to a pure phase which is absent before and after the step
+            absent = set()
+            eb = before.get(("EQUILIBRIUM_PHASES_RAW", plan["use"]["equilibrium_phases"]))
+            ea = after.get(("EQUILIBRIUM_PHASES_RAW", plan["save"].get("equilibrium_phases")))
+            mb = {o["args"][0]: float(val(o["opts"], "moles")) for o in (eb["opts"] if eb else []) if o["key"] == "component"}
+            ma = {o["args"][0]: float(val(o["opts"], "moles")) for o in (ea["opts"] if ea else []) if o["key"] == "component"}
+            for nm in mb:
+                if mb[nm] == 0.0 and ma.get(nm, 1.0) == 0.0:
+                    absent |= set(_formula_elements(formula_of(nm, phases, extra)))
+            drift = [b for b in bad if b["element"] in absent and b["element"] not in ("H", "O") and abs(b["diff"]) < 1e-8]
+            if drift:
+                out.setdefault("findings", []).append((KEY_ABS, "simulation %d: %s" % (s, json.dumps(drift[:3])), s))
+                bad = [b for b in bad if b not in drift]
         if bad:
             out["problems"].append(("conservation", "simulation %d (%d steps): %s" % (s, nsteps, json.dumps(bad[:4])), s))
         if neg:
